@@ -418,6 +418,19 @@ class World(object):
                 self.rt = roundtrip.run_rt(doc, a["fmt"], a["opts"], self.voc)
                 return none
             return run
+        if op == "Dot":
+            import roundtrip
+            import lex_dot
+            from prov.dot import prov_to_dot
+            doc = self.h[a["h"]]
+            o = a["opts"]
+
+            def run():
+                self.graph = {"src": roundtrip.proj_doc(doc, self.voc)}
+                d = prov_to_dot(doc, show_nary=o["nary"], use_labels=o["labels"], direction=o["dir"],
+                                show_element_attributes=o["elattrs"], show_relation_attributes=o["relattrs"])
+                return lex_dot.lex(d.to_string(), self.voc)
+            return run
         if op == "Graph":
             import roundtrip
             from prov.graph import prov_to_graph, graph_to_prov
@@ -602,7 +615,7 @@ class World(object):
         st["look"], st["typed"], st["copy"] = self.lookups()
         if a["op"] == "RT":
             st.update(self.rt)
-        if a["op"] == "Graph" and exc == "none":
+        if a["op"] in ("Graph", "Dot") and exc == "none":
             st.update(self.graph)
         if a["op"] == "Save":
             sv = self.save
